@@ -95,6 +95,14 @@ impl Headers {
     }
 }
 
+#[cfg(humphrey_verif)]
+impl Headers {
+    /// Verification hook: the headers in the order in which they were added (`iter` sorts them).
+    pub fn verif_in_order(&self) -> &[Header] {
+        &self.0
+    }
+}
+
 impl Header {
     /// Create a new header with the given name and value.
     ///
